@@ -22,10 +22,11 @@ PROBES = {
             "missing_values_in_training_window", "fit_params_checked",
             "x_consuming_forecaster", "missing_values_in_test_window", "raw_metric_checked",
             "exogenous_windows_checked", "splitter_object_reused", "splitter_object_reused_unchanged",
-            "gapped_time_stamps", "windows_with_holes",
+            "gapped_time_stamps", "windows_with_holes", "splitter_self_consistency_checked",
+            "cutoffs_given_one_by_one", "cutoff_listed_twice", "cutoff_earlier_than_window",
             "integer_valued_series"],
     "C08": ["tie_in_best_score", "greater_is_better", "nested_param_names", "multiplexer_grid",
-            "randomized_search", "refit_false", "refit_flag_switched_on_without_fit", "grid_with_member_list", "grid_with_long_objects", "interleave_schedule", "pre_dispatch_window",
+            "randomized_search", "tuner_as_ensemble_member_checked", "metric_parameter_changed_before_second_fit", "refit_false", "refit_flag_switched_on_without_fit", "grid_with_member_list", "grid_with_long_objects", "interleave_schedule", "pre_dispatch_window",
             "lockstep_history_checked", "sibling_schedule_checked", "list_of_grids",
             "random_state_instance", "tie_not_involving_first", "second_fit_other_grid",
             "fit_horizon_remembered", "prediction_intervals_checked", "undefined_candidate_score",
@@ -213,6 +214,22 @@ def generate(prop, rng, tier):
             metric = "nan_mae"
             first = (cv.get("initial") or cv["window"])
             nan_test = sorted(set(rng.randint(first, n - 1) for _ in range(rng.randint(1, 2))))
+        if cv["type"] != "sliding" and strategy == "refit" and rng.random() < 0.3:
+            # cutoffs given one by one (positions): some early ones, for which fewer observations
+            # than the window exist, sometimes one of them twice
+            cv = {"type": "cutoff", "window": max(cv["window"], need + 2), "step": 1, "fh": cv["fh"],
+                  "start_with_window": True}
+            n = max(n, cv["window"] + max(cv["fh"]) + 4)
+            hi = n - max(cv["fh"]) - 1
+            lo = max(1, need - 1)            # (enough observations for the forecaster in any case)
+            cuts = sorted(rng.sample(range(lo, hi + 1), min(rng.randint(1, 4), hi - lo + 1)))
+            if rng.random() < 0.5:
+                cuts[0] = rng.randint(lo, max(lo, min(cv["window"] - 2, hi)))
+                cuts = sorted(cuts)
+            if rng.random() < 0.3:
+                cuts = sorted(cuts + [rng.choice(cuts)])
+            cv["cutoffs"] = cuts
+            with_X = False
         cv["fh_as"] = rng.choice(["list", "list", "array", "object"])
         index = rng.choice(["range", "range", "int"])
         if spec["kind"] == "naive" and spec.get("strategy") == "last" and spec.get("sp", 1) == 1 \
@@ -307,7 +324,7 @@ def generate(prop, rng, tier):
     cv["step"] = rng.choice([2, 3, 5])
     n = max(n, cv["window"] + max(cv["fh"]) + 2 * cv["step"] + 1)
     search = "grid" if rng.random() < 0.75 else "random"
-    return {
+    scen = {
         "base": base, "grid": grid, "search": search, "n_iter": rng.randint(2, 5),
         "search_rs": rng.randint(0, 99), "search_rs_kind": rng.choice(["int", "int", "instance"]),
         "cv": cv, "n": n,
@@ -347,6 +364,10 @@ def generate(prop, rng, tier):
         "clock": {"seed": rng.randint(0, 10 ** 6), "jump_every": rng.choice([0, 0, 4]),
                   "jump_hours": rng.choice([-3, 50])},
     }
+    if scen["metric"] == "mse" and rng.random() < 0.6:
+        # a parameter OF the scorer object is changed (scoring__square_root) before a second fit
+        scen["second_metric"], scen["second_fit"] = "rmse_nested", True
+    return scen
 
 
 # ------------------------------------------------------------------ C07
@@ -370,13 +391,14 @@ def execute_c07(scen):
     res = RunResult()
     s = scen["series"]
     y = C.make_series(s["seed"], scen["n"], s["origin"], s["index"], sp=s["sp"])
-    if scen.get("nans") and scen["cv"]["window"] >= 4 and not scen.get("prefit"):
+    if scen.get("nans") and scen["cv"]["window"] >= 4 and not scen.get("prefit") \
+            and scen["cv"]["type"] != "cutoff":     # (early cutoffs would make them test points)
         y.iloc[[1, 2]] = np.nan   # inside the early training windows, never last, never tested
         res.probe("missing_values_in_training_window")
     if scen.get("int_values") and not scen.get("nans") and not scen.get("nan_test"):
         y = y.round().astype("int64")
         res.probe("integer_valued_series")
-    if scen.get("nan_test"):
+    if scen.get("nan_test") and scen["cv"]["type"] != "cutoff":
         y.iloc[[p_ for p_ in scen["nan_test"] if p_ < len(y)]] = np.nan
         res.probe("missing_values_in_test_window")
     if s["index"] in ("step2", "irregular"):
@@ -421,6 +443,46 @@ def execute_c07(scen):
     if not splits:
         res.digest = "nosplit"
         return res
+    # the splitter agrees with itself: as many splits as it announces, at the cutoffs it reports,
+    # and - where the cutoffs are given one by one, or there is one window - training windows
+    # that are the `window_length` observations up to the cutoff (as many as exist)
+    with peers.paused():
+        try:
+            fresh_cv = C.build_cv(scen["cv"])
+            n_decl, cuts_decl = int(fresh_cv.get_n_splits(y)), [int(c_) for c_ in fresh_cv.get_cutoffs(y)]
+        except Exception:
+            n_decl = cuts_decl = None
+    if any(len(tr) == 0 or len(te) == 0 for tr, te in splits):
+        res.violate("C07.splitter_inconsistent", "the splitter yields an empty training or test window",
+                    what="empty", splitter=scen["cv"]["type"])
+        return res
+    if n_decl is not None:
+        res.probe("splitter_self_consistency_checked")
+        if n_decl != len(splits):
+            res.violate("C07.splitter_inconsistent", "the splitter announces %d splits (get_n_splits) and "
+                        "yields %d" % (n_decl, len(splits)), what="n_splits", splitter=scen["cv"]["type"])
+            return res
+        if cuts_decl != [int(tr[-1]) for tr, _ in splits]:
+            res.violate("C07.splitter_inconsistent", "the splitter reports the cutoffs %s (get_cutoffs), "
+                        "its training windows end at %s" % (cuts_decl[:6], [int(tr[-1]) for tr, _ in splits][:6]),
+                        what="cutoffs", splitter=scen["cv"]["type"])
+            return res
+        if scen["cv"]["type"] in ("cutoff", "single"):
+            for tr, _ in splits:
+                c_ = int(tr[-1])
+                want = list(range(max(c_ - scen["cv"]["window"] + 1, 0), c_ + 1))
+                if [int(t_) for t_ in tr] != want:
+                    res.violate("C07.splitter_inconsistent", "window_length=%d, cutoff at position %d: the "
+                                "training window is %s, the %d observations up to the cutoff are %s" % (
+                                    scen["cv"]["window"], c_, [int(t_) for t_ in tr][:8], len(want), want[:8]),
+                                what="window", splitter=scen["cv"]["type"])
+                    return res
+    if scen["cv"]["type"] == "cutoff":
+        res.probe("cutoffs_given_one_by_one")
+        if len(set(scen["cv"]["cutoffs"])) < len(scen["cv"]["cutoffs"]):
+            res.probe("cutoff_listed_twice")
+        if min(scen["cv"]["cutoffs"]) + 1 < scen["cv"]["window"]:
+            res.probe("cutoff_earlier_than_window")
     sc = sched.Scheduler("fifo", 0)
     try:
         with sched.scenario_schedule(sc), patched_evaluate_clock(clock):
@@ -969,12 +1031,18 @@ def execute_c08(scen):
         cands2 = list(ParameterGrid(grid2))
         s4 = sched.Scheduler(scen["sched"]["mode"], scen["sched"]["seed"] + 17, scen["sched"]["p"])
         metric2 = scen.get("second_metric")
-        if metric2 == scen["metric"] or scen["metric"] == "corr":
+        nested_metric_param = metric2 == "rmse_nested" and scen["metric"] == "mse"
+        if metric2 == scen["metric"] or scen["metric"] == "corr" or metric2 == "rmse_nested":
             metric2 = None
         m2name = metric2 if metric2 is not None else scen["metric"]
+        if nested_metric_param:
+            m2name = "rmse"    # the scorer object is kept, one of ITS parameters is changed
         try:
             with sched.scenario_schedule(s4), patched_evaluate_clock(SimClock(3)):
-                if metric2 is not None:
+                if nested_metric_param:
+                    tuner.set_params(param_grid=grid2, scoring__square_root=True)
+                    res.probe("metric_parameter_changed_before_second_fit")
+                elif metric2 is not None:
                     # (the metric is reconfigured as well: ranking follows the new metric)
                     tuner.set_params(param_grid=grid2, scoring=build_metric(metric2))
                     res.probe("metric_changed_before_second_fit")
@@ -1288,6 +1356,38 @@ def execute_c08(scen):
                 break
             res.digest = digest.hexdigest()[:16]
             return res
+    # ---- the tuner as ONE MEMBER of an ensemble, next to an ensemble that holds a forecaster built
+    # directly with the best parameters in the same place: after a rolling update_predict on the
+    # ensembles, the member tuner's cutoff and the ensembles' forecasts are the same
+    if scen["refit"] and not res.violations and scen["series"]["seed"] % 3 == 0 and not scen.get("refit_fails") \
+            and scen["metric"] != "corr":
+        from sktime.forecasting.compose import EnsembleForecaster
+        from sktime.forecasting.model_selection import SlidingWindowSplitter
+        from sktime.forecasting.naive import NaiveForecaster
+        try:
+            with sched.scenario_schedule(sched.Scheduler("fifo", 0)), patched_evaluate_clock(SimClock(6)):
+                e_t = EnsembleForecaster([("t", _make_tuner(scen, None)), ("o", NaiveForecaster(strategy="drift"))])
+                e_d = EnsembleForecaster([("t", clone(C.build(scen["base"])).set_params(**_fresh(cands[bi]))),
+                                          ("o", NaiveForecaster(strategy="drift"))])
+                mk_cv = lambda: SlidingWindowSplitter(fh=[1, 2], window_length=1, step_length=1,  # noqa
+                                                      start_with_window=False)
+                outs = []
+                for e_ in (e_t, e_d):
+                    e_.fit(y, fh=[1, 2])
+                    e_.update_predict(tail, mk_cv())
+                    outs.append((e_.forecasters_[0].cutoff, e_.cutoff, e_.predict()))
+            res.probe("tuner_as_ensemble_member_checked")
+            (ct, cet, pt), (cd, ced, pd_) = outs
+            if ct != cd or cet != ced:
+                v("tuner_cutoff_differs", "as a member of an ensemble, after update_predict on the ensemble: "
+                  "the tuner's cutoff is %s (ensemble %s), a forecaster built with the best parameters in "
+                  "its place has %s (ensemble %s)" % (ct, cet, cd, ced), op="member_of_ensemble")
+            elif not C.same_series(pt, pd_):
+                v("tuner_differs_from_best_forecaster", "as a member of an ensemble, after update_predict: "
+                  "the ensemble with the tuner forecasts %s, with a forecaster built from the best "
+                  "parameters %s" % (C.fmt(pt), C.fmt(pd_)), op="member_of_ensemble")
+        except Exception as e:  # noqa
+            digest.update(("member:%s" % type(e).__name__).encode())
     # ---- the same tuner switched to refit=False and fitted again: the forecaster of the
     # earlier fit must not answer any more
     if scen.get("toggle_refit") and not res.violations:
